@@ -1,0 +1,105 @@
+//! In-memory replacement for `tokio::net::{TcpListener, TcpStream}`.
+//!
+//! Only compiled with `--cfg hotstuff_verif` (verification builds). Listeners are registered in a
+//! process-wide table keyed by port; a connection is a `tokio::io::duplex` pair. Dropping one
+//! half gives the other side EOF on read and `BrokenPipe` on write; connecting to a port nobody
+//! listens on is refused. All sender/receiver logic of this crate runs unchanged on top of it.
+use std::collections::HashMap;
+use std::io;
+use std::net::SocketAddr;
+use std::pin::Pin;
+use std::sync::{Mutex, OnceLock};
+use std::task::{Context, Poll};
+use tokio::io::{AsyncRead, AsyncWrite, DuplexStream, ReadBuf};
+use tokio::sync::mpsc::{unbounded_channel, UnboundedReceiver, UnboundedSender};
+
+type Incoming = (TcpStream, SocketAddr);
+
+fn registry() -> &'static Mutex<HashMap<u16, UnboundedSender<Incoming>>> {
+    static REGISTRY: OnceLock<Mutex<HashMap<u16, UnboundedSender<Incoming>>>> = OnceLock::new();
+    REGISTRY.get_or_init(|| Mutex::new(HashMap::new()))
+}
+
+/// Forget every listener (used between independent scenarios).
+pub fn reset() {
+    registry().lock().unwrap().clear();
+}
+
+pub struct TcpStream(DuplexStream);
+
+impl TcpStream {
+    pub async fn connect(address: SocketAddr) -> io::Result<TcpStream> {
+        let refused = || io::Error::new(io::ErrorKind::ConnectionRefused, "connection refused");
+        let tx = registry().lock().unwrap().get(&address.port()).cloned();
+        match tx {
+            Some(tx) if !tx.is_closed() => {
+                let (a, b) = tokio::io::duplex(1 << 22);
+                let peer = "127.0.0.1:1".parse().unwrap();
+                tx.send((TcpStream(b), peer)).map_err(|_| refused())?;
+                Ok(TcpStream(a))
+            }
+            _ => Err(refused()),
+        }
+    }
+}
+
+impl AsyncRead for TcpStream {
+    fn poll_read(
+        mut self: Pin<&mut Self>,
+        cx: &mut Context<'_>,
+        buf: &mut ReadBuf<'_>,
+    ) -> Poll<io::Result<()>> {
+        Pin::new(&mut self.0).poll_read(cx, buf)
+    }
+}
+
+impl AsyncWrite for TcpStream {
+    fn poll_write(
+        mut self: Pin<&mut Self>,
+        cx: &mut Context<'_>,
+        buf: &[u8],
+    ) -> Poll<io::Result<usize>> {
+        Pin::new(&mut self.0).poll_write(cx, buf)
+    }
+
+    fn poll_flush(mut self: Pin<&mut Self>, cx: &mut Context<'_>) -> Poll<io::Result<()>> {
+        Pin::new(&mut self.0).poll_flush(cx)
+    }
+
+    fn poll_shutdown(mut self: Pin<&mut Self>, cx: &mut Context<'_>) -> Poll<io::Result<()>> {
+        Pin::new(&mut self.0).poll_shutdown(cx)
+    }
+}
+
+pub struct TcpListener {
+    port: u16,
+    rx: tokio::sync::Mutex<UnboundedReceiver<Incoming>>,
+}
+
+impl TcpListener {
+    pub async fn bind(address: &SocketAddr) -> io::Result<TcpListener> {
+        let (tx, rx) = unbounded_channel();
+        let mut registry = registry().lock().unwrap();
+        if let Some(old) = registry.get(&address.port()) {
+            if !old.is_closed() {
+                return Err(io::Error::new(io::ErrorKind::AddrInUse, "address in use"));
+            }
+        }
+        registry.insert(address.port(), tx);
+        Ok(TcpListener {
+            port: address.port(),
+            rx: tokio::sync::Mutex::new(rx),
+        })
+    }
+
+    pub async fn accept(&self) -> io::Result<(TcpStream, SocketAddr)> {
+        match self.rx.lock().await.recv().await {
+            Some(incoming) => Ok(incoming),
+            None => std::future::pending().await,
+        }
+    }
+
+    pub fn port(&self) -> u16 {
+        self.port
+    }
+}
